@@ -29,6 +29,7 @@ type Clause struct {
 	Expr  ast.Expr
 	Info  *types.Info
 	Label string // stable label: kind + ordinal within the contract
+	unstatable bool // names a local the function does not define (reported as a failed obligation)
 }
 
 type LoopSpec struct {
@@ -65,6 +66,7 @@ type Contract struct {
 	Cases    []string
 	Notes    []string
 	Used     bool
+	Iface    string // "iface <signature>": the contract is on an interface method; the text is the stub's parameter and result lists, receiver first: "(self T, a A) (r R)"
 }
 
 func (c *Contract) servesProp(p string) bool {
@@ -103,7 +105,7 @@ type Lemma struct {
 var clauseKeywords = map[string]bool{
 	"func": true, "props": true, "safety": true, "requires": true, "ensures": true,
 	"modifies": true, "loop": true, "trusted": true, "pure": true, "opaque": true, "ghost": true,
-	"global": true, "lemma": true, "assumes": true, "import": true, "note": true, "cases": true, "end": true, "trustframe": true, "ensures-local": true, "defines": true, "precall": true, "closure": true,
+	"global": true, "lemma": true, "assumes": true, "import": true, "note": true, "cases": true, "end": true, "trustframe": true, "ensures-local": true, "defines": true, "precall": true, "closure": true, "iface": true,
 }
 
 var funcKeyRe = regexp.MustCompile(`^(?:\(\s*\*?\s*(\w+)\s*\)\s*\.\s*(\w+)|(\w+)\s*\.\s*(\w+)|(\w+))`)
@@ -242,6 +244,9 @@ func parseSpecFile(path, relDir string) (*PkgSpec, error) {
 			switch it.kw {
 			case "props":
 				cur.Props = strings.Fields(it.text)
+			case "iface":
+				cur.Iface = strings.TrimSpace(it.text)
+				cur.Trusted = true // there is no body to verify: a contract on an interface method is an assumption about every implementation
 			case "safety":
 				for _, s := range strings.Fields(it.text) {
 					cur.Safety[s] = true
@@ -545,6 +550,11 @@ func preludeSrc(pkgName string, ps *PkgSpec) string {
 	}
 	for _, l := range ps.Lemmas {
 		ghostText.WriteString(l.Params + "\n")
+	}
+	for _, k := range ps.Order {
+		if c := ps.Contracts[k]; c.Iface != "" {
+			ghostText.WriteString(c.Iface + "\n")
+		}
 	}
 	for _, imp := range ps.Imports {
 		// import only what the ghost declarations mention (clauses are checked in the scope of the real files)
